@@ -77,7 +77,36 @@ def run_mutants(prop, only=None, keep=False):
     return results
 
 
+def run_patch(prop, patch, keep=False):
+    """apply a git patch (seeded change) to a scratch copy of the current /repo and run the property's quick check"""
+    base = os.path.join(tempfile.gettempdir(), "acmed-verif-mut")
+    os.makedirs(base, exist_ok=True)
+    scratch = os.path.join(base, "repo")
+    out = os.path.join(base, "out")
+    copy_repo(scratch)
+    r = subprocess.run(["patch", "-p1", "-s", "-i", os.path.abspath(patch)], cwd=scratch, stdout=subprocess.PIPE, stderr=subprocess.STDOUT, text=True)
+    if r.returncode != 0:
+        return {"status": "PATCH-FAILED", "output": r.stdout.splitlines()[-5:]}
+    shutil.rmtree(out, ignore_errors=True)
+    env = dict(os.environ)
+    env["ACMED_REPO"] = scratch
+    env["VERIF_OUT"] = out
+    r = subprocess.run([os.path.join(VERIF, "bin", "check"), prop, "--tier", "quick"], env=env, cwd=VERIF,
+                       stdout=subprocess.PIPE, stderr=subprocess.STDOUT, text=True)
+    lines = [l for l in r.stdout.splitlines() if l.startswith("VIOLATION") or l.strip().startswith("rule ") or "FATAL" in l]
+    status = "BUILD-FAILED" if "FATAL" in r.stdout else ("CAUGHT" if r.returncode == 1 else "MISSED")
+    if not keep:
+        shutil.rmtree(base, ignore_errors=True)
+    return {"status": status, "output": lines[:8]}
+
+
 if __name__ == "__main__":
+    if sys.argv[1] == "--patch":
+        res = run_patch(sys.argv[2], sys.argv[3])
+        print(res["status"])
+        for l in res["output"]:
+            print("   ", l)
+        sys.exit(0)
     prop = sys.argv[1]
     only = sys.argv[2:] or None
     res = run_mutants(prop, only)
